@@ -28,6 +28,13 @@ CLAIMS = {
          "Tie to the code: every Display row and every reader row compared exhaustively (all table values; every 1-2 character symbol candidate with every ASCII "
          "follow character; every configuration spelling with every one-character corruption; all charge spellings) on every run.",
          "Lean 4 proof (T-tok: reader inverts text for every token class and every bracket-field combination) + exhaustive differential correspondence of the tables", "4.7"),
+ 'C09': ("Theorem read_write (Purr/Props/C09.lean), T-wr at full strength: for EVERY protocol-conformant non-empty history of root/extend/join/pop calls (any interleaving, any atom kind incl. all bracket-field combinations, "
+         "any bond kind, any ring number, any legal pop depth) the writer does not panic and the reader accepts its text and replays exactly the same calls up to the C07 shorthands. Proof: compositional link invariant over the "
+         "writer's segment stack (each segment is a string that, read from body / after-open / start mode with any continuation that cannot extend its last token, emits exactly its events and lengthens the chain by one), "
+         "built on T-tok (C07) for every token class; follow-set side conditions discharged once per adjacent token pair. Corollaries: every accepted string's history is conformant and non-empty, so read(write(read s)) replays it; "
+         "re-writing what was read from writer output reproduces it character for character; any follower (fold over events) gets the same result directly or through the text. "
+         "Tie: writer text, builder result and protocol verdict of the real code compared with the model on exhaustive small and random histories, and on strings.",
+         "Lean 4 proof (writer/reader inverse theorem by a compositional link invariant over the writer's segment stack) + differential correspondence on event histories", "4.9"),
  'C13': ("Theorems in Purr/Props/C13.lean about the ring-number pool, for every sequence of hits (every reachable interleaving of openings and closings): the pool invariant "
          "(open and returned numbers partition 1..counter-1, no duplicates, one entry per unordered pair) holds in every reachable state; an opening hit returns the least number >= 1 not currently open; "
          "a closing hit returns the number its pair was opened with and that number is free at once; an opening number never exceeds the count of open closures plus one, hence "
